@@ -1,35 +1,49 @@
 ------------------------------ MODULE TraceCam16 ------------------------------
 (* Trace validation for C16: every recorded event of harness/src/bin/cam16.rs is judged by the verdict      *)
 (* operators of Cam16.tla (stateless: one event per line, each self-contained; the viewing conditions are an  *)
-(* opaque `params` id).  With CALIB=1 in the environment the measured bits of agreement of every relation are  *)
-(* printed as NOTE lines in addition (calibration, evidence of the margins); the verdict is unchanged.         *)
+(* opaque `params` id).  The variable `mn` only keeps, per component type and relation, the smallest number   *)
+(* of bits of agreement seen among the judged events; it is printed as NOTE lines after the last event, so     *)
+(* that every run records the margin to the thresholds (it never influences a verdict).  With CALIB=1 in the   *)
+(* environment the bits of every judged event are printed as well.                                           *)
 EXTENDS Cam16, Json, IOUtils, TLC
 
 Rec == ndJsonDeserialize(IOEnv.TRACE)
 Calib == "CALIB" \in DOMAIN IOEnv /\ IOEnv.CALIB = "1"
-VARIABLE l
+VARIABLES l, mn
 
-Note(e) ==
-  IF ~Calib THEN TRUE
-  ELSE IF e.ev = "conv" /\ ConvJudged(e)
-       THEN LET b == ConvBits(e)
-                col == IF InCollar(FxV(e.x)) THEN 1 ELSE 0
-            IN PrintT(<<"NOTE", "conv", e.t, e.pk, e.params, col, b.rtf, b.rtp, b.pp, b.ef, b.sat, b.wj, l>>)
-  ELSE IF e.ev = "pair" /\ PairJudged(e) THEN PrintT(<<"NOTE", "pair", e.t, e.params, PairBits(DyV(e.f1), DyV(e.f2)), l>>)
-  ELSE IF e.ev = "ucs" /\ UcsJudged(e)
-       THEN LET b == UcsBits(e) IN PrintT(<<"NOTE", "ucs", e.t, b.fj, b.fm, b.pol, b.ij, b.im, b.rt, l>>)
-  ELSE TRUE
+Keys == {"rt", "rtc", "pp", "ef", "sat", "wj", "pair", "fj", "fm", "pol", "ij", "im", "urt"}
+Types == {"f32", "f64"}
+Lower(m, t, k, v) == [m EXCEPT ![t][k] = IF v < @ THEN v ELSE @]
 
-Why(e) == CASE e.ev = "conv" -> ConvWhy(e)
-            [] e.ev = "pair" -> PairWhy(e)
-            [] e.ev = "ucs" -> UcsWhy(e)
+Reject(w) == IF w = "ok" THEN TRUE ELSE PrintT(<<"REJECT", l, w>>)
 
-TInit == l = 1
+ConvMin(e, b, col) == Lower(Lower(Lower(Lower(Lower(mn, e.t, IF col = 1 THEN "rtc" ELSE "rt", Min2i(b.rtf, b.rtp)),
+                                              e.t, "pp", b.pp), e.t, "ef", b.ef), e.t, "sat", b.sat), e.t, "wj", b.wj)
+StepConv2(e, b, col) == /\ mn' = ConvMin(e, b, col)
+                        /\ Calib => PrintT(<<"NOTE", "conv", e.t, e.pk, e.params, col, b.rtf, b.rtp, b.pp, b.ef, b.sat, b.wj, l>>)
+StepConv(e, b) == /\ Reject(ConvWhyB(e, b))
+                  /\ IF ConvJudged(e) THEN StepConv2(e, b, IF InCollar(DyV(e.x)) THEN 1 ELSE 0) ELSE UNCHANGED mn
+StepPair(e, b) == /\ Reject(PairWhyB(e, b))
+                  /\ IF PairJudged(e) THEN /\ mn' = Lower(mn, e.t, "pair", b)
+                                           /\ Calib => PrintT(<<"NOTE", "pair", e.t, e.params, b, l>>)
+                     ELSE UNCHANGED mn
+UcsMin(e, b) == Lower(Lower(Lower(Lower(Lower(Lower(mn, e.t, "fj", b.fj), e.t, "fm", b.fm), e.t, "pol", b.pol),
+                                  e.t, "ij", b.ij), e.t, "im", b.im), e.t, "urt", b.rt)
+StepUcs(e, b) == /\ Reject(UcsWhyB(e, b))
+                 /\ IF UcsJudged(e) THEN /\ mn' = UcsMin(e, b)
+                                         /\ Calib => PrintT(<<"NOTE", "ucs", e.t, b.fj, b.fm, b.pol, b.ij, b.im, b.rt, l>>)
+                    ELSE UNCHANGED mn
+
+Step(e) == CASE e.ev = "conv" -> StepConv(e, ConvBits(e))
+             [] e.ev = "pair" -> StepPair(e, PairBits(DyV(e.f1), DyV(e.f2)))
+             [] e.ev = "ucs" -> StepUcs(e, UcsBits(e))
+
+TInit == l = 1 /\ mn = [t \in Types |-> [k \in Keys |-> 999]]
 TNext == /\ l <= Len(Rec)
          /\ Rec[l].ev \in {"conv", "pair", "ucs"}
-         /\ Note(Rec[l])
-         /\ LET w == Why(Rec[l]) IN IF w = "ok" THEN TRUE ELSE PrintT(<<"REJECT", l, w>>)
+         /\ Step(Rec[l])
          /\ l' = l + 1
-TSpec == TInit /\ [][TNext]_l
+         /\ (l = Len(Rec) => \A t \in Types : \A k \in Keys : PrintT(<<"NOTE", "min", t, k, mn'[t][k]>>))
+TSpec == TInit /\ [][TNext]_<<l, mn>>
 Consumed == TLCGet("stats").diameter = Len(Rec) + 1 \/ PrintT(<<"UNCONSUMED", TLCGet("stats").diameter>>)
 =============================================================================
